@@ -56,7 +56,14 @@ fn ids() -> [Id; 3] {
     ]
 }
 
+/// the contents are built once and shared (`Bytes` clones are reference counts): the explorer keeps
+/// one model store per frontier state
 fn content(i: usize) -> Bytes {
+    static CACHE: std::sync::OnceLock<Vec<Bytes>> = std::sync::OnceLock::new();
+    CACHE.get_or_init(|| (0..4).map(make_content).collect())[i.min(3)].clone()
+}
+
+fn make_content(i: usize) -> Bytes {
     match i {
         0 => Bytes::new(),
         2 => Bytes::from_static(b"x"),
